@@ -13,7 +13,8 @@ tangent entries have the Gauss-point form those theorems are stated in (`Spec/As
 GLUE OF ONE PANEL (very last section): `Panel.calc_kT(c=…)` and `Panel.calc_fint(c, …)` as modelled in `Model/PanelGlue.lean` (`calcKT`,
 `calcFint`; helpers `Model/PanelGlueLemmas.lean`; tie: recorded-kernel-call correspondence `tools/props/C02.py : glue_correspondence`, methods
 `kT` and `fint`): `calc_kT_dispatch`, `calc_fint_dispatch`, `calc_fint_rejects`, `calc_kT_fint_consistent`, `calc_fint_zero_state`,
-`panel_tangent_is_jacobian_glue`.
+`panel_tangent_is_jacobian_glue`, and its instances with the kernel hypothesis discharged by the panel theorems,
+`panel_tangent_is_jacobian_glue_plate / _cpanel` (non-vacuity: `GlueJacExample`).
 -/
 import CompmechVerif.Spec.NonlinearPoint
 import CompmechVerif.Spec.Jacobian.PlateU
@@ -930,6 +931,159 @@ theorem panel_tangent_is_jacobian_glue (P : PanelGlue.Panel ℝ) (A : PanelGlue.
       simpa using (hasDerivAt_id (0 : ℝ)).mul_const ((pre'.map fun g => Asm.toFun (Asm.finalize (kern g c)) a b).sum)
     simpa using (hasDerivAt_const (0 : ℝ) ((pre'.map fun g => Asm.mulVecAt (Asm.finalize (kern g c)) c a).sum)).fun_add h1
   exact hder.fun_add hlin
+
+/-- **… for the FLAT PLATE, with the kernel hypothesis `hK` DISCHARGED by `kT_is_derivative_gauss_sum_plate`.**  Same setting and same
+conclusion as `panel_tangent_is_jacobian_glue`; instead of assuming any derivative, what is assumed of the three state-based kernels is
+`hG`: their recorded outputs ARE the Gauss sums of the regenerated point integrands (`PlateGaussPair` of Spec/AssemblyGauss.lean, exactly
+as in `assembly_tangent_is_jacobian_gauss`) - for every pair of amplitudes `a, b < n` there is a list of integration points (any number,
+any positions, each with its basis values, weight, laminate table and accumulated state at `c`, `a ≠ 0`, `b ≠ 0`) such that entry `a` of
+the vector returned by `calc_fint(c + t e_b)` is the sum over the points of the regenerated internal-force integrand of the field of `a` at
+the state moved by `t` times degree of freedom `b`, and entry `(a, b)` of `fin(fkL_num(c)) + fin(fkG_num(c))` is the sum over the same
+points of the regenerated `fkL_num + fkG_num` integrands.  The field of a global index is `(a - col0) mod 3` (the panel's block starts at
+`col0`).  Then, for `finalize=True`, `row0 = col0`, `len(c) = n`, whenever BOTH calls succeed: `∂ calc_fint(c)_a / ∂ c_b = calc_kT(c)[a, b]`
+for every `a, b < n`, constant pre-stress included.  (`hlen`, `hconst` as before: the force kernel returns `n` entries; an analytic
+kernel does not read `c`.) -/
+theorem panel_tangent_is_jacobian_glue_plate (P : PanelGlue.Panel ℝ) (A : PanelGlue.Args ℝ) (RT : PanelGlue.Result ℝ)
+    (RF : PanelGlue.VResult ℝ) (cv : PanelGlue.CArg) (hc : A.c = some cv) (hfin : A.finalize = true)
+    (hrow : PanelGlue.row0Spec A = PanelGlue.col0Spec A)
+    (hT : (PanelGlue.calcKT P A).res = .ok RT) (hF : (PanelGlue.calcFint P A).res = .ok RF)
+    (kernV : PanelGlue.KCall ℝ → List ℝ → List ℝ) (kern : PanelGlue.KCall ℝ → List ℝ → Asm.Coo ℝ) (c : List ℝ) (n : Nat)
+    (hcn : c.length = n)
+    (hlen : ∀ g x, g.name = .calc_fint → (kernV g x).length = n)
+    (hconst : ∀ g, g.num = false → ∀ x y, kern g x = kern g y)
+    (hG : ∀ kL ∈ RT.calls, ∀ kG ∈ RT.calls, ∀ f ∈ RF.calls, kL.name = .fkL_num → kG.name = .fkG_num → f.name = .calc_fint →
+      ∀ a b, a < n → b < n →
+        PlateGaussPair (fun t : ℝ => (kernV f (Asm.axpy c t (Asm.unitVec n b))).getD a 0)
+          (Asm.toFun (Asm.finalize (kern kL c)) a b + Asm.toFun (Asm.finalize (kern kG c)) a b)
+          (fieldOf (a - PanelGlue.col0Spec A)) (fieldOf (b - PanelGlue.col0Spec A)))
+    (a b : Nat) (ha : a < n) (hb : b < n) :
+    HasDerivAt
+      (fun t : ℝ => (RF.eval (fun g => kernV g (Asm.axpy c t (Asm.unitVec n b))) (fun g => kern g (Asm.axpy c t (Asm.unitVec n b)))
+        (Asm.axpy c t (Asm.unitVec n b))).getD a 0)
+      (Asm.toFun (RT.eval fun g => kern g c) a b) 0 := by
+  refine panel_tangent_is_jacobian_glue P A RT RF cv hc hfin hrow hT hF kernV kern c n hcn hlen hconst ?_ a b ha hb
+  intro kL hkL kG hkG f hf hLname hGname hfname a' b' ha' hb'
+  obtain ⟨pts, hpts, hfun, hkab⟩ := hG kL hkL kG hkG f hf hLname hGname hfname a' b' ha' hb'
+  rw [funext hfun, hkab]
+  exact kT_is_derivative_gauss_sum_plate pts hpts _ _
+
+/-- the cylindrical panel: the same with `CPanelGaussPair` (every point also has `r ≠ 0`) and `kT_is_derivative_gauss_sum_cpanel` -/
+theorem panel_tangent_is_jacobian_glue_cpanel (P : PanelGlue.Panel ℝ) (A : PanelGlue.Args ℝ) (RT : PanelGlue.Result ℝ)
+    (RF : PanelGlue.VResult ℝ) (cv : PanelGlue.CArg) (hc : A.c = some cv) (hfin : A.finalize = true)
+    (hrow : PanelGlue.row0Spec A = PanelGlue.col0Spec A)
+    (hT : (PanelGlue.calcKT P A).res = .ok RT) (hF : (PanelGlue.calcFint P A).res = .ok RF)
+    (kernV : PanelGlue.KCall ℝ → List ℝ → List ℝ) (kern : PanelGlue.KCall ℝ → List ℝ → Asm.Coo ℝ) (c : List ℝ) (n : Nat)
+    (hcn : c.length = n)
+    (hlen : ∀ g x, g.name = .calc_fint → (kernV g x).length = n)
+    (hconst : ∀ g, g.num = false → ∀ x y, kern g x = kern g y)
+    (hG : ∀ kL ∈ RT.calls, ∀ kG ∈ RT.calls, ∀ f ∈ RF.calls, kL.name = .fkL_num → kG.name = .fkG_num → f.name = .calc_fint →
+      ∀ a b, a < n → b < n →
+        CPanelGaussPair (fun t : ℝ => (kernV f (Asm.axpy c t (Asm.unitVec n b))).getD a 0)
+          (Asm.toFun (Asm.finalize (kern kL c)) a b + Asm.toFun (Asm.finalize (kern kG c)) a b)
+          (fieldOf (a - PanelGlue.col0Spec A)) (fieldOf (b - PanelGlue.col0Spec A)))
+    (a b : Nat) (ha : a < n) (hb : b < n) :
+    HasDerivAt
+      (fun t : ℝ => (RF.eval (fun g => kernV g (Asm.axpy c t (Asm.unitVec n b))) (fun g => kern g (Asm.axpy c t (Asm.unitVec n b)))
+        (Asm.axpy c t (Asm.unitVec n b))).getD a 0)
+      (Asm.toFun (RT.eval fun g => kern g c) a b) 0 := by
+  refine panel_tangent_is_jacobian_glue P A RT RF cv hc hfin hrow hT hF kernV kern c n hcn hlen hconst ?_ a b ha hb
+  intro kL hkL kG hkG f hf hLname hGname hfname a' b' ha' hb'
+  obtain ⟨pts, hpts, hfun, hkab⟩ := hG kL hkL kG hkG f hf hLname hGname hfname a' b' ha' hb'
+  rw [funext hfun, hkab]
+  exact kT_is_derivative_gauss_sum_cpanel pts hpts _ _
+
+/-! #### non-vacuity of the two instantiated glue theorems
+
+The one-point, `m = n = 1` flat panel of `Spec/AssemblyGauss.lean : AsmGaussExample` (`gF`, `gK`, `gauss_pair`: the state of the point is
+accumulated from the three amplitudes, force vector and upper-triangle tangent list are the regenerated integrands at that state) behind the
+glue of a concrete `Panel` over ℝ with a constant pre-load. -/
+namespace GlueJacExample
+open Compmech.PanelGlue Compmech.Asm Compmech AsmGaussExample
+
+/-- a flat plate with `m = n = 1` (three amplitudes), full width, constant pre-load `(5, −5, None)`, laminate present -/
+def exR : PanelGlue.Panel ℝ :=
+  { model := .kind .plate, a := 2, b := 2, r := none, alphadeg := none, alpharadFrom := none, y1 := none, y2 := none,
+    offset := 0, mu := none, Nxx := none, Nyy := none, Nxy := none, NxxCte := some 5, NyyCte := some (-5),
+    NxyCte := none, flow := .x, beta := none, gamma := none, aeromu := none, mach := none, rhoAir := 0, V := 0,
+    speedSound := 1, m := 1, n := 1, nx := 1, ny := 1, sizeAttr := none, forceOrtho := false, stackLen := 1,
+    laminapropsSet := false, laminapropSet := true, plytsSet := false, plytSet := true, lamSet := true }
+
+/-- `c` a 1-D ndarray of length 3, everything else defaulted (`finalize=True`, `row0 = col0 = 0`) -/
+def exA : PanelGlue.Args ℝ := { c := some ⟨true, 1, 3⟩ }
+
+/-- the force kernel: the regenerated plate integrand at ONE integration point whose state is accumulated from the amplitudes -/
+noncomputable def exKernV (_ : KCall ℝ) (x : List ℝ) : List ℝ := gF 0 x
+
+/-- the matrix kernels: `fkL_num` returns the upper triangle of the regenerated `fkL_num + fkG_num` integrands at that point (so `fkG_num`
+returns nothing), the analytic pre-stress kernel `fkG0` a constant non-zero matrix -/
+noncomputable def exKern (g : KCall ℝ) (x : List ℝ) : Coo ℝ :=
+  if g.name = .fkL_num ∧ g.num = true then gK 0 x else if g.name = .fkG0 then [(0, 0, 7), (0, 1, 2)] else []
+
+/-- both calls succeed on it; the `fkL_num` call is a call into the numerical module -/
+theorem ex_calls : ∃ RT RF, (calcKT exR exA).res = .ok RT ∧ (PanelGlue.calcFint exR exA).res = .ok RF ∧
+    (∀ g ∈ RT.calls, g.name = .fkL_num → g.num = true) ∧ RT.calls.length = 3 ∧ RF.calls.length = 2 ∧ RF.prestress = true := by
+  simp [calcKT, PanelGlue.calcK0, calcKG0, rebuild, exR, exA, ModelAttr.kind?, resolveSize, checkC, k0Const, strip?, lamRebuilt,
+    refreshGeom, k0Prestress, preloaded, ModelKind.hasNum, PanelGlue.getSize, ModelKind.dofs, PanelGlue.calcFint, ModelKind.hasFint,
+    mkCall]
+
+/-- non-vacuity of `panel_tangent_is_jacobian_glue_plate` (hence of `panel_tangent_is_jacobian_glue`): on this pre-loaded plate both calls
+succeed (three resp. two kernel calls, the pre-stress product is made), `hlen`, `hconst`, `hG` hold for these kernels at EVERY `c` of length 3,
+and the conclusion is a statement about a force that really depends on `c` (cubic) and a non-zero constant pre-stress matrix -/
+example : ∃ RT RF, (calcKT exR exA).res = .ok RT ∧ (PanelGlue.calcFint exR exA).res = .ok RF ∧
+    RT.calls.length = 3 ∧ RF.calls.length = 2 ∧ RF.prestress = true ∧
+    ∀ c : List ℝ, c.length = 3 → ∀ a b, a < 3 → b < 3 →
+      HasDerivAt
+        (fun t : ℝ => (RF.eval (fun g => exKernV g (axpy c t (unitVec 3 b))) (fun g => exKern g (axpy c t (unitVec 3 b)))
+          (axpy c t (unitVec 3 b))).getD a 0)
+        (toFun (RT.eval fun g => exKern g c) a b) 0 := by
+  obtain ⟨RT, RF, hT, hF, hnum, h3, h2, hp⟩ := ex_calls
+  refine ⟨RT, RF, hT, hF, h3, h2, hp, fun c hc a b ha hb => ?_⟩
+  refine panel_tangent_is_jacobian_glue_plate exR exA RT RF ⟨true, 1, 3⟩ rfl rfl rfl hT hF exKernV exKern c 3 hc
+    (fun _ _ _ => rfl) ?_ ?_ a b ha hb
+  · intro g hg x y
+    unfold exKern
+    simp [hg]
+  · intro kL hkL kG _ f _ hLname hGname _ a' b' ha' hb'
+    have e1 : exKern kL c = gK 0 c := by unfold exKern; simp [hLname, hnum kL hkL hLname]
+    have e2 : exKern kG c = [] := by unfold exKern; simp [hGname]
+    have e3 : toFun (finalize ([] : Coo ℝ)) a' b' = 0 := by unfold finalize; rw [toFun_makeSymmetric]; simp [toFun]
+    rw [e1, e2, e3, add_zero]
+    exact gauss_pair 0 c hc a' b' ha' hb'
+
+/-- the same panel as a cylindrical one of radius 3 -/
+def exRc : PanelGlue.Panel ℝ := { exR with model := .kind .cpanel, r := some 3 }
+
+/-- state-based kernels returning zeros (the Gauss sums over NO integration point), a constant non-zero pre-stress matrix -/
+noncomputable def exKernV0 (_ : KCall ℝ) (_ : List ℝ) : List ℝ := zeroVec 3
+noncomputable def exKern0 (g : KCall ℝ) (_ : List ℝ) : Coo ℝ := if g.name = .fkG0 then [(0, 0, 7), (0, 1, 2)] else []
+
+/-- both calls succeed on the cylindrical panel -/
+theorem ex_calls_c : ∃ RT RF, (calcKT exRc exA).res = .ok RT ∧ (PanelGlue.calcFint exRc exA).res = .ok RF ∧
+    RT.calls.length = 3 ∧ RF.calls.length = 2 ∧ RF.prestress = true := by
+  simp [calcKT, PanelGlue.calcK0, calcKG0, rebuild, exRc, exR, exA, ModelAttr.kind?, resolveSize, checkC, k0Const, strip?, lamRebuilt,
+    refreshGeom, k0Prestress, preloaded, ModelKind.hasNum, PanelGlue.getSize, ModelKind.dofs, PanelGlue.calcFint, ModelKind.hasFint,
+    mkCall]
+
+/-- non-vacuity of `panel_tangent_is_jacobian_glue_cpanel`: both calls succeed on the pre-loaded cylindrical panel and `hlen`, `hconst`, `hG`
+hold (trivially: Gauss sums over the empty list of points; no regenerated one-point cylindrical instance is available in Spec/) -/
+example : ∃ RT RF, (calcKT exRc exA).res = .ok RT ∧ (PanelGlue.calcFint exRc exA).res = .ok RF ∧
+    RT.calls.length = 3 ∧ RF.calls.length = 2 ∧ RF.prestress = true ∧
+    ∀ c : List ℝ, c.length = 3 → ∀ a b, a < 3 → b < 3 →
+      HasDerivAt
+        (fun t : ℝ => (RF.eval (fun g => exKernV0 g (axpy c t (unitVec 3 b))) (fun g => exKern0 g (axpy c t (unitVec 3 b)))
+          (axpy c t (unitVec 3 b))).getD a 0)
+        (toFun (RT.eval fun g => exKern0 g c) a b) 0 := by
+  obtain ⟨RT, RF, hT, hF, h3, h2, hp⟩ := ex_calls_c
+  refine ⟨RT, RF, hT, hF, h3, h2, hp, fun c hc a b ha hb => ?_⟩
+  refine panel_tangent_is_jacobian_glue_cpanel exRc exA RT RF ⟨true, 1, 3⟩ rfl rfl rfl hT hF exKernV0 exKern0 c 3 hc
+    (fun _ _ _ => by simp [exKernV0, length_zeroVec]) (fun _ _ _ _ => rfl) ?_ a b ha hb
+  intro kL _ kG _ f _ hLname hGname _ a' b' ha' hb'
+  have e3 : toFun (finalize ([] : Coo ℝ)) a' b' = 0 := by unfold finalize; rw [toFun_makeSymmetric]; simp [toFun]
+  refine ⟨[], by simp, fun t => ?_, ?_⟩
+  · simp only [exKernV0, zeroVec]; interval_cases a' <;> simp
+  · simp [exKern0, hLname, hGname, e3]
+
+end GlueJacExample
 
 end C08
 
